@@ -360,6 +360,39 @@ pub fn delayed_gate(spec: &mut SysSpec, variant: u64) {
     spec.pattern = "delayed-gate";
 }
 
+/// Phase bits next to a counter (added after an independently seeded change to PDR's re-fixing of generalised
+/// cubes against the initial states): a (init 0, next 1), b (init 0, next a) [, c (init 0, next b)], a 3-bit counter
+/// x (init 0, next x + 1); bad x == k [& last phase bit]. The counterexample is a single chain of k steps whose
+/// first states are told apart from the initial state only by the phase bits. Replaces the system.
+pub fn phase_counter(spec: &mut SysSpec, variant: u64) {
+    spec.states.clear();
+    spec.inputs.clear();
+    spec.anon_inputs.clear();
+    spec.outputs.clear();
+    spec.named.clear();
+    spec.bads.clear();
+    spec.constraints.clear();
+    let b1 = Ty::BV(1);
+    let lit1 = |v: u32| Sh::Lit(1, BigUint::from(v));
+    let n = 2 + (variant % 2) as usize;
+    let mut prev: Option<Sh> = None;
+    for i in 0..n {
+        let next = match &prev {
+            None => lit1(1),
+            Some(p) => p.clone(),
+        };
+        spec.states.push(StateSpec { ty: b1, init: Some(lit1(0)), next: Some(next) });
+        prev = Some(Sh::Sym(STATE_BASE + i as u8, b1));
+    }
+    let w = 3;
+    let x = Sh::Sym(STATE_BASE + n as u8, Ty::BV(w));
+    spec.states.push(StateSpec { ty: Ty::BV(w), init: Some(Sh::Lit(w, BigUint::from(0u32))), next: Some(Sh::Op(Op::Add, [0, 0], vec![x.clone(), Sh::Lit(w, BigUint::from(1u32))])) });
+    let k = 3 + (variant / 2) % 3;
+    let hit = Sh::Op(Op::Equal, [0, 0], vec![x, Sh::Lit(w, BigUint::from(k))]);
+    spec.bads.push(if (variant / 6) % 2 == 0 { hit } else { Sh::Op(Op::And, [0, 0], vec![hit, prev.unwrap()]) });
+    spec.pattern = "phase-counter";
+}
+
 pub fn show_with(e: &Sh, nm: &dyn Fn(u8, Ty) -> String) -> String {
     match e {
         Sh::Sym(i, t) => nm(*i, *t),
